@@ -323,7 +323,7 @@ def r16_3_6(ctx, pf, loop, info, report_repeats=True):
             if norm(e.left) == kv:
                 if isinstance(c, ast.Constant) and isinstance(c.value, str) and isinstance(e.ops[0], (ast.Eq, ast.NotEq)):
                     return (key == c.value) == isinstance(e.ops[0], ast.Eq)
-                if isinstance(c, ast.Name) and isinstance(pf.module.consts.get(c.id), (ast.Call, ast.Tuple, ast.List, ast.Set)):
+                if isinstance(c, ast.Name) and isinstance(pf.module.consts.get(c.id), (ast.Call, ast.Tuple, ast.List, ast.Set)) and not _mutated_anywhere(ctx.repo, c.id):
                     c = pf.module.consts[c.id]  # a module-level literal collection (frozenset({...}), a tuple / set display)
                     if isinstance(c, ast.Call) and isinstance(c.func, ast.Name) and c.func.id in ("frozenset", "set", "tuple", "list") and len(c.args) == 1:
                         c = c.args[0]
@@ -379,6 +379,32 @@ def r16_3_6(ctx, pf, loop, info, report_repeats=True):
             why = [canon_test(t, pol) for t, pol in p.tests() if gate_value(t, pol, match_vars, pf.module) is None]
             ctx.violated("R16.6", pf.where(loop), f"a well-formed optional field ({key}...) is silently dropped under {why}", key_of(pf, f"drop:{key}:{why}"), path=p.show())
     ctx.holds("R16.6", pf.where(loop), f"every well-formed field other than ds:Z: that is not yet present is stored on every path ({n_worlds} key/presence worlds x {len(paths)} paths)")
+
+
+def _mutated_anywhere(repo, name):
+    """a module-level collection `name` is changed somewhere in the program (at import time or later): `name.add/update/...`,
+    `mod.name.add(...)`, `name |= ...`, `name[...] = ...` — its display is then not the set a membership test sees"""
+    hit = getattr(repo, "_mutated_cache", None)
+    if hit is None:
+        hit = repo._mutated_cache = {}
+    if name in hit:
+        return hit[name]
+    res = False
+    for mod in repo.modules.values():
+        for x in ast.walk(mod.tree):
+            tgt = None
+            if isinstance(x, ast.Call) and isinstance(x.func, ast.Attribute) and x.func.attr in ("add", "update", "discard", "remove", "pop", "clear", "append", "extend", "insert", "difference_update", "intersection_update", "symmetric_difference_update", "setdefault", "popitem"):
+                tgt = x.func.value
+            elif isinstance(x, ast.AugAssign):
+                tgt = x.target
+            elif isinstance(x, (ast.Assign, ast.Delete)):
+                for t in x.targets:
+                    if isinstance(t, ast.Subscript):
+                        tgt = t.value
+            if tgt is not None and ((isinstance(tgt, ast.Name) and tgt.id == name) or (isinstance(tgt, ast.Attribute) and tgt.attr == name)):
+                res = True
+    hit[name] = res
+    return res
 
 
 def _is_tag_copy(e, base, rec, extras):
